@@ -128,6 +128,11 @@ func EncodeWithColor(content string, interleaved bool, color barcode.ColorScheme
 		}
 	}
 
+	if lastRune != nil {
+		// a dangling first half of a pair (odd number of runes although the byte length is even)
+		return nil, fmt.Errorf("can not encode \"%s\"", content)
+	}
+
 	resBits.AddBit(mode.end...)
 
 	if interleaved {
